@@ -132,6 +132,11 @@ impl Inner {
     fn event(&mut self, tid: usize, kind: u8, obj: u32) {
         self.step += 1;
         alloc::CUR_STEP.store(self.step, Relaxed);
+        let hb = HEARTBEAT.load(Relaxed);
+        if !hb.is_null() {
+            // SAFETY: points into the shared region owned by the worker; single writer
+            unsafe { std::ptr::write_volatile(hb, std::ptr::read_volatile(hb).wrapping_add(1)) };
+        }
         let w = ((tid as u64) << 40) | ((kind as u64) << 32) | obj as u64;
         self.hash = (self.hash ^ w).wrapping_mul(0x0000_0100_0000_01b3);
         let s = ((tid as u64) << 8) | kind as u64;
@@ -248,6 +253,10 @@ pub fn stamp() -> u64 {
 static CRUMB: AtomicPtr<u8> = AtomicPtr::new(std::ptr::null_mut());
 static CRUMB_CAP: AtomicUsize = AtomicUsize::new(0);
 static CRUMB_LEN: AtomicPtr<u64> = AtomicPtr::new(std::ptr::null_mut());
+static HEARTBEAT: AtomicPtr<u64> = AtomicPtr::new(std::ptr::null_mut());
+pub fn set_heartbeat(p: *mut u64) {
+    HEARTBEAT.store(p, SeqCst);
+}
 pub fn set_crumb(buf: *mut u8, cap: usize, len: *mut u64) {
     CRUMB.store(buf, SeqCst);
     CRUMB_CAP.store(cap, SeqCst);
